@@ -1,5 +1,43 @@
 """C09 worker: to_file / from_file round trips on the implementation (exact, field by field) and
-byte-level observations for the Coq codec model."""
+byte-level observations for the Coq codec model.
+
+Coverage: clause of the property -> stream (kind) that reaches it
+  BQM  to_file/from_file, fileview.load      kind bqm: dtypes float64/float32/object, format versions 1 and 2 (int or tuple),
+                                             ignore_labels, both vartypes, 0..6 variables; Coq: CBqm (encoder == bytes,
+                                             decoder(bytes) == state, loader replay restores the adjacency)
+       a file of an OLDER writer             corpus legacy_all: tests/data/fileview/5x5_v1.bqm (itype uint32 / ntype uint64,
+                                             labels in the header) against an independent by-hand reader (codecgen.indep_bqm_state)
+  QM                                         kind qm: float64/float32, all four vartypes with bounds, self loops, REAL
+                                             interactions; Coq: CQm + CAdj (lower triangles -> loaded adjacency)
+  CQM  format version 2.0                    kind cqm: objective present/absent, variables only in the objective / only in
+                                             constraints / unused, hard + soft (linear, quadratic) constraints, discrete marks
+                                             in every API-reachable combination with the one-hot shape, constant-only
+                                             constraints, constraint labels with '/', compress, check_header on/off;
+                                             Coq: CExpr per member, CVarinfo, CLabels
+       bundled version 2.0 files             corpus legacy_all: members decoded by the Coq codec (CExprDec: written by an older
+                                             release whose QUAD length field was 4 bytes), CVarinfo, CLabels
+       format versions 1.0-1.3 (_from_file_legacy)
+                                             corpus legacy_all: the 14 bundled v1.x archives read INDEPENDENTLY by
+                                             CqmFile.legacy_read (variables in file order, vartypes, bounds, objective,
+                                             constraints, soft, discrete) = CLegacy;
+                                             kind legacy_synth: random CQMs written BY HAND in the 1.0/1.1/1.2/1.3 layout
+                                             (codecgen.legacy_cqm_bytes: header counts computed by hand, objective member listing
+                                             every variable, QM or BQM (v1/v2, float32) lhs members, weight/penalty, deflate),
+                                             expected state from the description incl. variable ORDER, + CLegacy;
+                                             kind widen: the float32 -> float64 widening of the Coq model against NumPy
+  DQM  format version 1.1                    kind dqm: compress, deprecated `compressed=` alias, ignore_labels; caselabel
+                                             (CaseLabelDQM: to_file must refuse without ignore_labels); dqm_big (> 64 KiB labels)
+       format versions 1.0 / 1.1, any index dtype
+                                             kind dqm_hand: the file written by hand without dimod (codecgen.dqm_bytes_by_hand,
+                                             1.0 has no offset entry), expected state from the description
+  labels                                     ints (negative, > 2^32, > 2^53, NumPy), floats, strings ('', '/', quotes, backslash,
+                                             non-ASCII, control characters), nested tuples; exactly range(n), permutations,
+                                             and index-LIKE labelings that must not take the `is_range` fast path (gap, shifted,
+                                             last label a string, two swapped, NumPy integers at their own index, i + 0.5)
+  options                                    spool_size default/1/100; input as bytes, bytearray, memoryview, file, fileview.load
+                                             of bytes / of a file
+Not reached (reported): file objects positioned away from offset 0; BQM v1 files with non-int32 index types other than
+the bundled one; float labels EQUAL to their own index (Variables stores the index label, see codecgen.pick_labels)."""
 import glob
 import json
 import os
@@ -21,11 +59,28 @@ SPOOLS = [None, None, 1, 100]
 
 
 def gen_case(rng, tier):
-    kind = rng.choice(['bqm', 'bqm', 'bqm', 'qm', 'qm', 'cqm', 'cqm', 'dqm', 'caselabel'])
+    kind = rng.choice(['bqm', 'bqm', 'bqm', 'qm', 'qm', 'cqm', 'cqm', 'dqm', 'caselabel', 'legacy_synth'])
     c = {"kind": kind, "spool": rng.choice(SPOOLS), "how": rng.choice(HOWS)}
+    if kind == 'legacy_synth' and rng.random() < 0.1:
+        # IEEE-754 binary32 -> binary64 on bit patterns (no NaNs): the widening used for float32 members
+        bits = []
+        for _ in range(40):
+            e = rng.choice([0, 0, 1, 254, 255, 127, 128, rng.randint(0, 255)])
+            mant = 0 if e == 255 else rng.choice([0, 1, 2 ** 22, 2 ** 23 - 1, rng.randint(0, 2 ** 23 - 1)])
+            bits.append((rng.randint(0, 1) << 31) | (e << 23) | mant)
+        return {"kind": "widen", "bits": bits}
+    if kind == 'legacy_synth':
+        c["cqm"] = G.rand_cqm_desc(rng, shaped_p=0.5, np_p=0.2, real_q_p=0.0, wild_p=0.15)
+        c["minor"] = rng.choice([0, 1, 2, 3])
+        c["compress"] = rng.random() < 0.3
+        c["check_header"] = rng.random() < 0.8
+        c["bqm_lhs"] = [rng.random() < 0.5 for _ in range(12)]
+        c["bqm_version"] = rng.choice([1, 2])
+        c["f32"] = [rng.random() < 0.25 for _ in range(12)]
+        return c
     if kind == 'bqm':
         n = rng.randint(0, 6)
-        labels = G.pick_labels(rng, n, np_p=0.25)
+        labels = G.pick_labels(rng, n, np_p=0.25, idx_p=0.08)
         c["dtype"] = rng.choice(['float64', 'float64', 'float32', 'object'])
         c["desc"] = G.rand_desc(rng, labels, kinds=('BINARY', 'SPIN'), single_vartype=True,
                                 kmax=6 if c["dtype"] == 'float32' else 8, jmax=1 if c["dtype"] == 'float32' else 2)
@@ -35,18 +90,24 @@ def gen_case(rng, tier):
         c["ignore_labels"] = rng.random() < 0.25
     elif kind == 'qm':
         n = rng.randint(0, 6)
-        labels = G.pick_labels(rng, n, np_p=0.25)
+        labels = G.pick_labels(rng, n, np_p=0.25, idx_p=0.08)
         c["dtype"] = rng.choice(['float64', 'float64', 'float32'])
         c["desc"] = G.rand_desc(rng, labels, kmax=6 if c["dtype"] == 'float32' else 8, jmax=1 if c["dtype"] == 'float32' else 2,
                                 real_q=rng.random() < 0.25)
     elif kind == 'cqm':
-        c["cqm"] = G.rand_cqm_desc(rng, shaped_p=0.6, np_p=0.3, real_q_p=0.35)
+        c["cqm"] = G.rand_cqm_desc(rng, shaped_p=0.6, np_p=0.3, real_q_p=0.35, idx_p=0.08)
         c["compress"] = rng.random() < 0.4
         c["check_header"] = rng.random() < 0.8
     elif kind == 'dqm':
-        c["dqm"] = G.rand_dqm_desc(rng, np_p=0.3)
+        c["dqm"] = G.rand_dqm_desc(rng, np_p=0.3, idx_p=0.08)
         c["compress"] = rng.random() < 0.4
         c["ignore_labels"] = rng.random() < 0.3
+        c["compressed_kw"] = rng.choice([None, None, None, True, False])      # deprecated alias of compress
+        if rng.random() < 0.3:
+            # the same description written BY HAND (no dimod) as a format-version 1.0 / 1.1 file
+            c["kind"] = 'dqm_hand'
+            c["minor"] = rng.choice([0, 1])
+            c["index_dtype"] = rng.choice(['int64', 'uint32', 'int32'])
     else:
         n = rng.randint(1, 3)
         labels = G.pick_labels(rng, n, wild_p=0.0, range_p=0.0)
@@ -69,9 +130,36 @@ def legacy_files():
     return sorted(glob.glob(os.path.join(root, "cqm", "*.cqm")) + glob.glob(os.path.join(root, "fileview", "*.bqm"))), root
 
 
+def cqm_v2_terms(m, data, fails, decode_only=False):
+    """byte level, serialization version 2.0: every expression member, the varinfo member, the label member of the
+    archive in `data` against model `m` (Coq: encoder of the model state == member bytes, decoder of the bytes == state)"""
+    mem = G.zip_members(data)
+    pv = list(m.variables)
+    # decode_only: the archive was written by an OLDER release (bundled files) - only the decoder is compared
+    ctor = "CExprDec" if decode_only else "CExpr"
+    terms = [f"({ctor} {G.expr_file_term(m.objective, pv)} {cbytes(mem['objective'])})"]
+    for lab, con in m.constraints.items():
+        lstr = json.dumps(dimod.variables.serialize_variable(lab))
+        terms.append(f"({ctor} {G.expr_file_term(con.lhs, pv)} {cbytes(mem['constraints/' + lstr + '/lhs'])})")
+    vi = clist([f"(VT_{m.vartype(v).name}, ({cbytes(np.float64(m.lower_bound(v)).tobytes())}, "
+                f"{cbytes(np.float64(m.upper_bound(v)).tobytes())}))" for v in pv])
+    terms.append(f"(CVarinfo {vi} {cbytes(mem['varinfo'])})")
+    if 'variable_labels.json' in mem:
+        if all(G.is_modelled_label(v) for v in pv):
+            terms.append(f"(CLabels {clist([G.clabel(v) for v in pv])} {cbytes(mem['variable_labels.json'])})")
+    elif not G.is_range(pv):
+        fails.append("variable_labels.json missing although the labels are not range(n)")
+    return terms, mem
+
+
 def run_legacy(c):
+    """every bundled file under tests/data: loaded through from_file and fileview.load (must agree, and re-serialising
+    must not change the model), and read INDEPENDENTLY by the Coq model: version 1.x CQM archives by
+    CqmFile.legacy_read (variables in file order, vartypes, bounds, objective, constraints), version 2.0 archives and
+    the BQM file member by member with the codec model"""
     files, root = legacy_files()
     fails = []
+    terms = []
     if len(files) < 20:
         fails.append(f"only {len(files)} bundled legacy files found under {root}")
     n_ok = 0
@@ -88,11 +176,63 @@ def run_legacy(c):
             d = diff_state(state_of(m), state_of(again))
             if d:
                 fails.append(f"{os.path.basename(p)}: re-serialising the loaded model changes it: {d}")
+            if kind == 'cqm':
+                if tuple(data[8:10]) < (2, 0):
+                    terms.append(G.legacy_term(data, m))
+                else:
+                    terms += cqm_v2_terms(m, data, fails, decode_only=True)[0]
+            else:
+                # read by an independent reader written from the format description (any itype / ntype)
+                d = diff_state(G.indep_bqm_state(data), state_of(m))
+                if d:
+                    fails.append(f"{os.path.basename(p)}: the loaded BQM differs from an independent reading of the file: {d}")
             n_ok += 1
         except Exception as e:
             fails.append(f"{os.path.basename(p)}: {type(e).__name__}: {e}")
-    return {"coq": None, "py_fail": "; ".join(fails) if fails else None, "features": {"kind": "legacy"},
-            "nontrivial": n_ok > 0, "observed": {"files": len(files)}}
+    return {"coq": terms[0] if terms else None, "extra_coq": terms[1:], "py_fail": "; ".join(fails) if fails else None,
+            "features": {"kind": "legacy"}, "nontrivial": n_ok > 0, "observed": {"files": len(files), "coq_terms": len(terms)}}
+
+
+def run_legacy_synth(c):
+    """a random CQM written BY HAND in the serialization-version-1.x layout (codecgen.legacy_cqm_bytes); the loaded model
+    must be the described one (field by field incl. variable order; the objective lists every variable), and the Coq
+    reader of the archive must see the loaded model in it"""
+    m = G.build_cqm(c["cqm"])
+    s0 = state_of(m)
+    soft = any(x["soft"] for x in s0["constraints"].values())
+    minor = 3 if soft else c["minor"]
+    data, members = G.legacy_cqm_bytes(m, minor, compress=c["compress"], bqm_lhs=c["bqm_lhs"], bqm_version=c["bqm_version"],
+                                       f32=c.get("f32", ()))
+    exp = G.legacy_expected_state(s0)
+    fails = []
+    coq = None
+    feats = {"kind": "legacy_synth", "how": c["how"], "minor": minor, "compress": c["compress"], "soft": soft,
+             "check_header": c["check_header"],
+             "bqm_member": any(b[:8] == b'DIMODBQM' for n, b in members if n.endswith('/lhs')),
+             "f32_member": any(b'"float32"' in b[:64] for n, b in members if n.endswith('/lhs')),
+             "objective_subset": len(m.objective.variables) < len(m.variables)}
+    try:
+        how = c["how"]
+        if how.startswith('load') or c["check_header"]:
+            m2 = load_as('cqm', data, how)
+        else:
+            import io
+            src = {'bytes': bytes(data), 'bytearray': bytearray(data), 'memoryview': memoryview(data)}.get(how) or io.BytesIO(data)
+            m2 = dimod.ConstrainedQuadraticModel.from_file(src, check_header=False)
+        d = diff_state(exp, state_of(m2))
+        if d:
+            fails.append("a version-1.%d file loaded as a different model: %s" % (minor, d))
+        if G.cqm_all_modelled(m2) and G.cqm_all_modelled(m):
+            coq = G.legacy_term(data, m2)
+        # saving the loaded model in today's format and loading that gives the same model again
+        again = load_as('cqm', m2.to_file().read(), 'bytes')
+        d = diff_state(state_of(m2), state_of(again))
+        if d:
+            fails.append("re-serialising the model loaded from a version-1.%d file changes it: %s" % (minor, d))
+    except Exception as e:
+        fails.append(f"from_file raised {type(e).__name__}: {e}")
+    return {"coq": coq, "py_fail": "; ".join(fails) if fails else None, "features": feats,
+            "nontrivial": len(m.variables) > 0, "observed": {"len": len(data), "members": len(members)}}
 
 
 def run_dqm_big(c):
@@ -123,6 +263,14 @@ def run_case(c):
         return run_legacy(c)
     if kind == 'dqm_big':
         return run_dqm_big(c)
+    if kind == 'legacy_synth':
+        return run_legacy_synth(c)
+    if kind == 'widen':
+        pairs = []
+        for x in c["bits"]:
+            b = int(x).to_bytes(4, 'little')
+            pairs.append(f"({cbytes(b)}, {cbytes(np.float64(np.frombuffer(b, np.float32)[0]).tobytes())})")
+        return {"coq": f"(CWiden {clist(pairs)})", "py_fail": None, "features": {"kind": "widen"}, "nontrivial": True}
     feats = {"kind": kind, "how": c.get("how")}
     kw = {} if c.get("spool") is None else {"spool_size": c["spool"]}
     fails = []
@@ -198,20 +346,10 @@ def run_case(c):
                      onehot_unmarked=any(x["onehot"] and not x["discrete"] for x in s0["constraints"].values()))
         # byte level: every expression member, the varinfo member, the label member
         try:
-            mem = G.zip_members(data)
-            pv = list(m.variables)
-            terms = [f"(CExpr {G.expr_file_term(m.objective, pv)} {cbytes(mem['objective'])})"]
-            for lab, con in m.constraints.items():
-                lstr = json.dumps(dimod.variables.serialize_variable(lab))
-                terms.append(f"(CExpr {G.expr_file_term(con.lhs, pv)} {cbytes(mem['constraints/' + lstr + '/lhs'])})")
-            vi = clist([f"(VT_{m.vartype(v).name}, ({cbytes(np.float64(m.lower_bound(v)).tobytes())}, "
-                        f"{cbytes(np.float64(m.upper_bound(v)).tobytes())}))" for v in pv])
-            terms.append(f"(CVarinfo {vi} {cbytes(mem['varinfo'])})")
-            if 'variable_labels.json' in mem:
-                if all(G.is_modelled_label(v) for v in pv):
-                    terms.append(f"(CLabels {clist([G.clabel(v) for v in pv])} {cbytes(mem['variable_labels.json'])})")
-            elif not G.is_range(pv):
-                fails.append("variable_labels.json missing although the labels are not range(n)")
+            terms, mem = cqm_v2_terms(m, data, fails)
+            if G.cqm_all_modelled(m):
+                # the whole archive: member names, optional members, their order, and the reader model on it
+                terms.append(f"(CCqm2 {G.archive_term(data)} {G.c2model_term(m)})")
             coq, extra = terms[0], terms[1:]
         except Exception:
             fails.append("could not take the zip apart: " + traceback.format_exc()[-600:])
@@ -220,14 +358,31 @@ def run_case(c):
     elif kind == 'dqm':
         m = G.build_dqm(c["dqm"])
         s0 = state_of(m)
+        if c.get("compressed_kw") is not None:
+            kw = dict(kw, compressed=c["compressed_kw"])
         data = m.to_file(compress=c["compress"], ignore_labels=c["ignore_labels"], **kw).read()
         if diff_state(s0, state_of(m)):
             fails.append("to_file modified the model")
         exp = G.relabelled_state(s0, m.num_variables()) if c["ignore_labels"] else s0
+        # the file of the same description written by hand denotes the same model
+        d = diff_state(s0, G.dqm_bytes_by_hand(c["dqm"])[1])
+        if d:
+            fails.append("the built DQM differs from its description: " + d)
         rt('dqm', m, exp, data)
         feats.update(compress=c["compress"], ignore_labels=c["ignore_labels"])
         observed = {"len": len(data)}
         nontrivial = m.num_variables() > 0
+    elif kind == 'dqm_hand':
+        data, exp = G.dqm_bytes_by_hand(c["dqm"], c["minor"], c["compress"], index_dtype=getattr(np, c["index_dtype"]))
+        m2 = rt('dqm', None, exp, data)
+        feats.update(minor=c["minor"], compress=c["compress"])
+        if m2 is not None:
+            again = load_as('dqm', m2.to_file().read(), 'bytes')
+            d = diff_state(exp, state_of(again))
+            if d:
+                fails.append("re-serialising the DQM loaded from a hand-written file changes it: " + d)
+        observed = {"len": len(data)}
+        nontrivial = len(c["dqm"]["vars"]) > 0
     elif kind == 'caselabel':
         m = dimod.CaseLabelDQM()
         for l, cases, shared in c["cl"]:
